@@ -1,8 +1,65 @@
 import PyPhysim.Model.Proto
-open PyPhysim.Proto
+import PyPhysim.Model.Gray
+import PyPhysim.Model.C01
+import PyPhysim.Generated.Conversion
+open PyPhysim.Proto PyPhysim.Gray PyPhysim.C01 PyPhysim.Generated
 
--- stub: replaced when the C01 model is written
+instance : NatCast Float := ⟨Float.ofNat⟩
+instance : IntCast Float := ⟨Float.ofInt⟩
+
+def pairs {α} : List α → Option (List (α × α))
+  | [] => some []
+  | a :: b :: t => (pairs t).map (fun r => (a, b) :: r)
+  | _ => none
+
+def showPts (l : List (Float × Float)) : String :=
+  showList (fun p => showFloat p.1 ++ "," ++ showFloat p.2) l
+
+def showE {α} (f : α → String) : Except PyErr α → String
+  | .ok v => f v
+  | .error e => "error:" ++ toString e
+
 def handle : List String → String
+  -- exact nearest-point detection on rational points: demodq <c> <samples>
+  | ["demodq", c, r] =>
+    match parseRatList? c >>= pairs, parseRatList? r >>= pairs with
+    | some c, some r => showList toString (r.map (demod c))
+    | _, _ => "bad-op"
+  | ["margin", c, r] =>   -- exact gap between the two smallest squared distances, per sample
+    match parseRatList? c >>= pairs, parseRatList? r >>= pairs with
+    | some c, some r => showList (fun s =>
+        let ds := (c.map (dist2 s)).toArray.qsort (· < ·)
+        if ds.size < 2 then "1/1" else showRat (ds[1]! - ds[0]!)) r
+    | _, _ => "bad-op"
+  | ["modulate", m, idx] =>
+    match m.toNat?, parseNatList? idx with
+    | some m, some idx =>
+      showE (fun (r : List Nat × List (Int × Int)) => showList (fun p => toString p.1) r.2)
+        (modulateArray ((List.range m).map (fun (i : Nat) => (Int.ofNat i, (0 : Int)))) [] idx)
+    | _, _ => "bad-op"
+  | ["bpskmod", bits] =>
+    match parseNatList? bits with
+    | some b => showE (showList toString) (bpskModulate b)
+    | none => "bad-op"
+  | ["bpskdemod", xs] =>
+    match parseFloatList? xs with
+    | some x => showList toString (x.map (fun v => bpskDemod v))
+    | none => "bad-op"
+  | ["psk", m, phase] =>     -- emitted PSK table: natural[gray2binary(arange M)]
+    match m.toNat?, parseFloat? phase with
+    | some m, some ph =>
+      showE showPts (relabel (pskNatural (α := Float) m ph) ((List.range m).map (pskPosInit gray2binary)))
+    | _, _ => "bad-op"
+  | ["qam", l] =>           -- emitted QAM table for L x L
+    match l.toNat? with
+    | some l =>
+      match level2bits (l*l) with
+      | .ok kk => showE showPts (relabel (qamNatural (α := Float) l)
+          ((List.range (l*l)).map (qamPos binary2gray (kk / 2) l)))
+      | .error e => "error:" ++ toString e
+    | none => "bad-op"
+  | ["accept", "psk", m] => match m.toNat? with | some m => toString (isPow2 m) | none => "bad-op"
+  | ["accept", "qam", m] => match m.toNat? with | some m => toString (isEvenPow2 m) | none => "bad-op"
   | _ => "bad-op"
 
 def main : IO Unit := runDriver handle
